@@ -372,7 +372,7 @@ func (c *Call) CanMid() bool {
 	case "sendelement":
 		return n >= 1
 	case "encode", "encodeelement":
-		return c.Form != "struct" && n >= 2
+		return (c.Form == "writerto" || c.Form == "marshaler" || c.Form == "tokenreader") && n >= 2
 	case "sendx":
 		switch {
 		case strings.HasSuffix(c.API, "Element") && strings.HasPrefix(c.API, "Send"):
@@ -380,7 +380,7 @@ func (c *Call) CanMid() bool {
 		case strings.HasPrefix(c.API, "Send"):
 			return n >= 2
 		default:
-			return c.Form != "struct" && n >= 2
+			return (c.Form == "marshaler" || c.Form == "tokenreader") && n >= 2
 		}
 	}
 	return false
